@@ -28,8 +28,16 @@ type vCountIter struct {
 	pos     int
 	pulled  int
 	yielded *int
+	inNext  *bool // the consumer is inside Next: the item it is about to return already gave up its slot
 	limit   int
 	over    bool
+}
+
+func vSlack(inNext *bool) int {
+	if inNext != nil && *inNext {
+		return 1
+	}
+	return 0
 }
 
 func (s *vCountIter) Next() (int, bool) {
@@ -40,7 +48,7 @@ func (s *vCountIter) Next() (int, bool) {
 			v, ok = s.pos, true
 			s.pos++
 			s.pulled++
-			if s.pulled-*s.yielded > s.limit {
+			if s.pulled-*s.yielded > s.limit+vSlack(s.inNext) {
 				s.over = true
 			}
 		}
@@ -59,15 +67,16 @@ func VerifMapIterator(L int, par int, buf int) {
 	if b < 0 {
 		b = 0
 	}
-	src := &vCountIter{n: L, yielded: &yielded, limit: b + effPar + 1} // the stated bound, with the buffer size as given
+	inNext := true // the consumer is always inside (or about to re-enter) Next: one item may be in the act of being returned
+	src := &vCountIter{n: L, yielded: &yielded, inNext: &inNext, limit: b + effPar + 1} // the stated bound, with the buffer size as given
 	it := MapIterator[int, int](src, par, buf, func(x int) int {
 		return x*2 + 1 // (workers' sends are scheduling points: later items can finish first)
 	})
 	for k := 0; k < L; k++ {
 		v, ok := it.Next()
+		vAtomic(func() { yielded++ })
 		vAssert(ok, "mapiterator/yields-every-item")
 		vAssert(v == k*2+1, "mapiterator/in-source-order-each-once")
-		vAtomic(func() { yielded++ })
 	}
 	_, ok := it.Next()
 	vAssert(!ok, "mapiterator/ends-after-the-last-item")
@@ -86,6 +95,7 @@ type vStreamSrc struct {
 	afterClose int
 	pulled   int
 	yielded  *int
+	inNext   *bool
 	limit    int
 	over     bool
 }
@@ -108,7 +118,7 @@ func (s *vStreamSrc) Next(ctx context.Context) (int, error) {
 			v = s.pos
 			s.pos++
 			s.pulled++
-			if s.pulled-*s.yielded > s.limit {
+			if s.pulled-*s.yielded > s.limit+vSlack(s.inNext) {
 				s.over = true
 			}
 		}
@@ -135,7 +145,8 @@ func VerifMapStream(L int, par int, buf int, fault int) {
 	if b < 0 {
 		b = 0
 	}
-	src := &vStreamSrc{n: L, errPos: -1, E: Esrc, yielded: &yielded, limit: b + effPar + 1}
+	inNext := true // see VerifMapIterator
+	src := &vStreamSrc{n: L, errPos: -1, E: Esrc, yielded: &yielded, inNext: &inNext, limit: b + effPar + 1}
 	failItem := -1
 	closeAfter := -1
 	badCall := -1
@@ -185,12 +196,14 @@ func VerifMapStream(L int, par int, buf int, fault int) {
 			c = vExpired{ctx}
 		}
 		v, err := out.Next(c)
+		if err == nil {
+			vAtomic(func() { yielded++ })
+		}
 		switch {
 		case err == nil:
 			vAssert(v == k*2+1, "C14:mapstream/in-source-order-each-once")
 			vAssert(k < firstBad, "C08:mapstream/no-result-at-or-beyond-the-failed-item")
 			k++
-			vAtomic(func() { yielded++ })
 		case err == stream.End:
 			vAssert(fault != 1 && fault != 2, "C08:mapstream/failure-not-replaced-by-end")
 			vAssert(k == L, "C14:mapstream/end-only-after-every-item")
